@@ -30,7 +30,7 @@ def specs(rng, tier, wid, nw, env):
     for i, (lo, hi) in enumerate(ranges):
         if i % nw == wid:
             yield ('sweep', 'aors', lo, hi, rng.getrandbits(40))
-    N = 4000 if q else 120000
+    N = 8000 if q else 600000
     for i in range(N):
         c = rng.random()
         if c < 0.5:
